@@ -34,6 +34,9 @@ theorem argVals_length {ρ : CEnv} : ∀ (as : Core.Args) (Vs : List CVal),
     Core.argVals ρ as = .ok Vs → argsAllVar as = true → True
   | _, _, _, _ => trivial
 
+theorem coreGetType_eq_ty (c : Core.Term) : coreGetType c = c.ty := by
+  cases c <;> rfl
+
 theorem step_call_fun (p : Fun.CheckedProgram) (f : String) (vs : List Fun.Value) (env : Fun.Env)
     (k : Fun.Stack) :
     Fun.step p (.args (.call f) vs .nil env k) =
@@ -48,13 +51,14 @@ set_option maxHeartbeats 400000 in
 /-- `f(args)` -/
 theorem eval_call (X : Ctx p q) {f : String} {as : Fun.Terms}
     {rty : Option Fun.Ty} {env : Fun.Env} {k : Fun.Stack} {c : Core.Term} {s : Core.Stmt}
-    {ρ0 ρ : CEnv} {out : Out} {n : Nat} (hg : good (.call f as rty) = true)
+    {ρ0 ρ : CEnv} {out : Out} {n : Nat} (hg : good p (.call f as rty) = true)
     (hc : Compiled q n (.call f as rty) c s)
-    (he : EnvRel GP q n (fv (.call f as rty)) env ρ0) (hr : CRel GP q n k c ρ0)
-    (hag : AgreeOn (tfvStmt s []) ρ0 ρ) :
-    Chunk p q (R q) true (.eval (.call f as rty) env k) ⟨s, ρ, out, n⟩ := by
+    (he : EnvRel (GP p) q n (fv (.call f as rty)) env ρ0) (hr : CRel (GP p) q n k c ρ0)
+    (hbd : BoundOn (tfvStmt s []) ρ0) (hag : AgreeOn (tfvStmt s []) ρ0 ρ) :
+    Chunk p q (R p q) true (.eval (.call f as rty) env k) ⟨s, ρ, out, n⟩ := by
   simp only [good, Bool.and_eq_true, bne_iff_ne, ne_eq] at hg
-  obtain ⟨hfm, hpf⟩ := hg
+  obtain ⟨⟨hfm, hgps⟩, _⟩ := hg
+  have hpf := goodPs_pureFOs p as hgps
   obtain ⟨st, st', hcwc, hst, htn, hcn⟩ := hc
   rw [cwc_call] at hcwc
   cases hcs : compileSubst as st with
@@ -66,18 +70,18 @@ theorem eval_call (X : Ctx p q) {f : String} {as : Fun.Terms}
     | some τ =>
       simp only [hcs, Except.ok.injEq, Prod.mk.injEq] at hcwc
       obtain ⟨rfl, rfl⟩ := hcwc
-      rw [argsSnoc_eq] at hag ⊢
+      rw [argsSnoc_eq] at hag hbd ⊢
       have f0 : FSteps p (.eval (.call f as (some τ)) env k) (.args (.call f) [] as env k) [] 1 :=
         .one rfl
       cases hvs : pureArgs p as env with
       | none =>
         obtain ⟨j, s1, w, fj, h1, h2⟩ :=
-          fun_pureArgs_none p as env (.call f) [] k (pureFOs_pure as hpf) hvs
+          fun_pureArgs_none p as env (.call f) [] k (pureFOs_pure (goodClauses p) as hpf) hvs
         have := f0.trans fj
         simp only [List.append_nil] at this
         exact .inl ⟨_, s1, .stuck w, this, by rw [h1]; rfl, fun hf => absurd hf (bad_not_finished h2)⟩
       | some vs =>
-        obtain ⟨j, fj⟩ := fun_pureArgs p as env vs (.call f) [] k (pureFOs_pure as hpf) hvs
+        obtain ⟨j, fj⟩ := fun_pureArgs p as env vs (.call f) [] k (pureFOs_pure (goodClauses p) as hpf) hvs
         have f1 := f0.trans fj
         simp only [List.append_nil, List.nil_append] at f1
         have hstep := step_call_fun p f vs env k
@@ -99,20 +103,21 @@ theorem eval_call (X : Ctx p q) {f : String} {as : Fun.Terms}
               mem_tfv_call.2 ((mem_tfvArgs_app _ _).2 (.inl hy))
             have hagc : AgreeOn (tfvTerm c []) ρ0 ρ := hag.mono fun y hy =>
               mem_tfv_call.2 ((mem_tfvArgs_app _ _).2 (.inr (mem_tfv_args_cons.2 (.inl hy))))
-            have hea : EnvRel GP q n (fvArgs as) env ρ :=
-              (he.sub fun y hy => by simpa [fv] using hy).actual _ hagas (fos_fv_tfv as hpf _ _ _ hcs)
-            have hsig : ∀ y ∈ fvArgs as, y ≠ sig := fun y hy => htn.fv_ne_sig y (by simpa [fv] using hy)
+            have hbdas : BoundOn (tfvArgs as' []) ρ0 := hbd.mono fun y hy =>
+              mem_tfv_call.2 ((mem_tfvArgs_app _ _).2 (.inl hy))
             obtain ⟨i1, ρ1, n1, as'', Vs, hc1, hn1, hext1, hall, hsb, hav, hvl⟩ :=
-              core_args (G := GP) (q := q) (p := p) X.hq X.hp as hpf
+              core_args (G := GP p) (q := q) (p := p) (goodClauses p) (goodClauses_find p) as hpf
                 (fun a => .call ⟨f, 0⟩ a (compileTy τ)) (argCtx_call _ _) (.cons .cns c .nil) env vs st
-                as' st1 n ρ n out .nil [] hcs hvs hea hsig rfl trivial rfl
+                as' st1 n ρ0 ρ n out .nil [] hcs hst
+                ⟨by simpa [fv] using htn.fv, by simpa [binderNames] using htn.bd, htn.nosig⟩ hvs
+                (he.sub fun y hy => by simpa [fv] using hy) hbdas hagas rfl trivial rfl
             simp only [appArgs, List.nil_append] at hc1 hsb hav
             -- the consumer
             obtain ⟨ρ01, hext0, hag1⟩ := hext1.agree (ρ0 := ρ0)
-            have hr1 : CRel GP q n1 k c ρ1 :=
+            have hr1 : CRel (GP p) q n1 k c ρ1 :=
               ((hr.mono hn1).sigExt hext0 (hcn.sig_lt (Nat.le_refl n))).agree (hag1 _ hagc)
             cases hr1 with
-            | @mk _ _ _ cv hcv hk hi hbc =>
+            | @mk _ _ _ cv hcv hk hi hbc htyc =>
               -- reach a call whose arguments are all variables
               have hreach : ∃ i2 ρ2 n2 pc z tz, CSteps q
                   ⟨.call ⟨f, 0⟩ (appArgs as'' (.cons .cns c .nil)) (compileTy τ), ρ1, out, n1⟩
@@ -133,7 +138,8 @@ theorem eval_call (X : Ctx p q) {f : String} {as : Fun.Terms}
                   have s1 := step_sigma (q := q)
                     (st := ⟨.call ⟨f, 0⟩ (appArgs as'' (.cons .cns c .nil)) (compileTy τ), ρ1, out, n1⟩) hsp
                   simp only [Core.sigmaCut] at s1
-                  have s2 := step_cut_mu (q := q) X.hq (cty := c.ty) (ty := c.ty) (a := Core.sigmaName n1)
+                  have s2 := step_cut_mu (q := q) (cty := c.ty) (ty := c.ty)
+                    (by rw [← coreGetType_eq_ty]; exact htyc) (a := Core.sigmaName n1)
                     (s := .call ⟨f, 0⟩ (appArgs as'' (.cons .cns (.var .cns (Core.sigmaName n1) c.ty) .nil))
                       (compileTy τ)) (ρ := ρ1) (out := out) (n := n1 + 1) hi hcv .prd
                   refine ⟨2, (Core.sigmaName n1, cv) :: ρ1, n1 + 1, .cns, Core.sigmaName n1, c.ty,
@@ -143,13 +149,13 @@ theorem eval_call (X : Ctx p q) {f : String} {as : Fun.Terms}
                   exact hav
               obtain ⟨i2, ρ2, n2, pc, z, tz, hc2, hn2, hav2⟩ := hreach
               -- the definition
-              obtain ⟨D, a, τa, τ', hD, hname, hctx, hcomp, hgood, hanot, hnodup, hclosed⟩ :=
+              obtain ⟨D, a, τa, τ', hD, hname, hctx, hcomp, hτ', hgood, hanot, hnodup, hclosed⟩ :=
                 X.defs f d hfd hfm
               have hlen : (compileContext d.ctx).length = Vs.length := by
                 rw [compileContext_length, ← hvl.length]
                 have := bindAll_length _ _ _ _ hba
                 simpa using this
-              obtain ⟨ρnew, hbind, henv⟩ := EnvRel.bindAll (G := GP) (q := q) (n := n2)
+              obtain ⟨ρnew, hbind, henv⟩ := EnvRel.bindAll (G := GP p) (q := q) (n := n2)
                 (xs := fv d.body) (env := []) (env' := env') (ρ0 := [(⟨a, 0⟩, cv)]) (ctx := d.ctx)
                 (.of_get fun y hy => by
                   obtain ⟨h1, h2⟩ := List.mem_filter.1 hy
@@ -182,7 +188,7 @@ theorem eval_call (X : Ctx p q) {f : String} {as : Fun.Terms}
               refine SRel.eval (c := .var .cns ⟨a, 0⟩ τ') (ρ0 := ρnew) hgood (hcomp.mono (Nat.zero_le _))
                 henv ?_ ?_ (.refl _ _)
               · exact .mk (by simpa [Core.cnsVal] using hla) (hk.mono hn2) trivial
-                  (fun b hb => by rw [mem_tfv_var] at hb; subst hb; exact ⟨_, hla⟩)
+                  (fun b hb => by rw [mem_tfv_var] at hb; subst hb; exact ⟨_, hla⟩) hτ'
               · refine bind_bound hbind fun y hy hne => ?_
                 obtain ⟨b', hb', e⟩ := X.closed D hD y hy
                 rw [hctx] at hb'
